@@ -66,7 +66,7 @@ func buildByHistory(t *rapid.T, cmds []database.Command, o gen.CmdOpts) (*databa
 			old[i] = gen.Command(o).Draw(t, "old-entry")
 		}
 		db := gen.Load(t, old)
-		db.SearchUniversal("find files", database.SearchOptions{Limit: 5, UseNLP: true})
+		c03Warm(t, db)
 		if rapid.Bool().Draw(t, "nil-list") {
 			db.Commands = nil
 		} else {
@@ -93,7 +93,7 @@ func buildByHistory(t *rapid.T, cmds []database.Command, o gen.CmdOpts) (*databa
 		last := gen.Load(t, old[k:])
 		// grown once into an array with room to spare, and searched there
 		db.Commands = append(append(make([]database.Command, 0, len(cmds)+4), db.Commands...), last.Commands...)
-		db.SearchUniversal("find files", database.SearchOptions{Limit: 5, UseNLP: true})
+		c03Warm(t, db)
 		final := gen.Load(t, cmds)
 		copy(db.Commands[:k+1], final.Commands[:k+1])              // rewritten in place
 		db.Commands = append(db.Commands, final.Commands[k+1:]...) // extended within the same array
@@ -107,6 +107,12 @@ func buildByHistory(t *rapid.T, cmds []database.Command, o gen.CmdOpts) (*databa
 		old := cloneCmds(cmds[:k+1])
 		for i := range old {
 			if rapid.Bool().Draw(t, "was-other") {
+				if c03Filtered && len(old[i].Platform) > 0 && rapid.Bool().Draw(t, "only-first-word-differed") {
+					// the same tagged entry under another tool name (the eligibility verdict may flip)
+					rest := old[i].Command[strings.IndexByte(old[i].Command, ' '):]
+					old[i].Command = rapid.SampledFrom(c03FirstWords).Draw(t, "old-first-word") + rest
+					continue
+				}
 				old[i] = gen.Command(o).Draw(t, "old-entry")
 			}
 		}
@@ -115,6 +121,7 @@ func buildByHistory(t *rapid.T, cmds []database.Command, o gen.CmdOpts) (*databa
 			db.BuildUniversalIndex()
 		}
 		db.SearchUniversal("find files", database.SearchOptions{Limit: 5, UseNLP: rapid.Bool().Draw(t, "warm-nlp")})
+		c03Warm(t, db)
 		final := cloneCmds(cmds)
 		for i := 0; i <= k; i++ { // field by field, as an editing caller would
 			db.Commands[i].Command = final[i].Command
@@ -130,12 +137,44 @@ func buildByHistory(t *rapid.T, cmds []database.Command, o gen.CmdOpts) (*databa
 	case "grow":
 		k := rapid.IntRange(0, len(cmds)).Draw(t, "grow-from")
 		db := gen.Load(t, cmds[:k])
-		db.SearchUniversal("find files", database.SearchOptions{Limit: 5, UseNLP: true})
+		c03Warm(t, db)
 		more := gen.Load(t, cmds[k:])
 		db.Commands = append(db.Commands, more.Commands...)
 		return db, hist
 	default:
 		return gen.Load(t, cmds), "load"
+	}
+}
+
+// first words for tagged entries in filtered mode: only words the harness classifies itself
+var c03FirstWords = []string{"git", "docker", "tar", "curl", "grep", "kubectl", "ls", "find", "GIT", "apt", "ipconfig", "systemctl", "dir", "brew", "gitk", "findstr", "chmod", "xgit", "tarball"}
+
+func c03IsTool(command string) bool {
+	first := strings.ToLower(command)
+	if i := strings.IndexByte(first, ' '); i >= 0 {
+		first = first[:i]
+	}
+	if c04Tools[first] == c04NonTools[first] {
+		panic("harness: first word " + first + " is not classified")
+	}
+	return c04Tools[first]
+}
+
+// c03Filtered tells the history builders of the current case to warm up with the filter on.
+var c03Filtered bool
+
+// c03Warm asks a few questions before the content changes: the stock one, and in filtered mode
+// the words of the entries held at that moment with the platform filter on.
+func c03Warm(t *rapid.T, db *database.Database) {
+	db.SearchUniversal("find files", database.SearchOptions{Limit: 5, UseNLP: true})
+	if !c03Filtered {
+		return
+	}
+	for _, w := range gen.Tokens(db.Commands) {
+		if rapid.IntRange(0, 2).Draw(t, "warm-word") == 0 {
+			db.SearchUniversal(w, database.SearchOptions{Limit: len(db.Commands) + 1, NoCrossPlatform: false,
+				Platforms: rapid.SampledFrom([][]string{nil, {"linux"}, {"windows"}, {"macos"}}).Draw(t, "warm-platforms")})
+		}
 	}
 }
 
@@ -165,6 +204,21 @@ func c03Property(t *rapid.T) {
 		}
 		ubiq = gen.Ubiquitous(t, cmds) // a word in (nearly) every entry: the smallest idf there is
 	}
+	// "filter-eligible": in a third of the cases the platform filter is on. Tags and platforms in
+	// force come from the four canonical names, and every tagged entry starts with a first word the
+	// harness classifies itself (recognised cross-platform tool or certainly none)
+	filtered := rapid.IntRange(0, 2).Draw(t, "platform-filter-on") == 0
+	if filtered {
+		for i := range cmds {
+			cmds[i].Platform = rapid.SampledFrom([][]string{nil, nil, {"linux"}, {"macos"}, {"windows"}, {"cross-platform"}, {"linux", "macos"}, {"windows", "cross-platform"}}).Draw(t, "platform-tags")
+			if len(cmds[i].Platform) > 0 {
+				cmds[i].Command = rapid.SampledFrom(c03FirstWords).Draw(t, "first-word") + " " + cmds[i].Command
+			}
+		}
+		c03Filtered = true
+	} else {
+		c03Filtered = false
+	}
 	db, hist := buildByHistory(t, cmds, o)
 	if msg := sameCommands(db, cmds); msg != "" {
 		t.Fatalf("history %s: %s", hist, msg)
@@ -189,6 +243,11 @@ func c03Property(t *rapid.T) {
 	}
 	opt := database.SearchOptions{Limit: len(cmds) + rapid.IntRange(1, 5).Draw(t, "extra"), AllPlatforms: true,
 		PipelineOnly: rapid.IntRange(0, 3).Draw(t, "ponly") == 0, TopTermsCap: rapid.SampledFrom([]int{0, 0, 10, 20}).Draw(t, "cap")}
+	if filtered {
+		opt.AllPlatforms = false
+		opt.Platforms = rapid.SampledFrom([][]string{nil, nil, {"linux"}, {"windows"}, {"macos"}, {"windows", "macos"}}).Draw(t, "platforms-in-force")
+		opt.NoCrossPlatform = rapid.IntRange(0, 2).Draw(t, "no-cross-platform") == 0
+	}
 	toks := gen.Tokens(cmds)
 	if len(toks) > 0 && rapid.Bool().Draw(t, "boosts") {
 		opt.ContextBoosts = map[string]float64{}
@@ -210,13 +269,18 @@ func c03Property(t *rapid.T) {
 	p := hookParams(db)
 	p.MinIDF = 0 // the statement has no idf cut-off: every content word of the query counts, however common
 	var elig func(int) bool
-	if opt.PipelineOnly {
-		elig = func(i int) bool { return ref.IsPipeline(&cmds[i]) }
+	if opt.PipelineOnly || filtered {
+		elig = func(i int) bool {
+			if opt.PipelineOnly && !ref.IsPipeline(&cmds[i]) {
+				return false
+			}
+			return !filtered || !ref.PlatformViolation(&cmds[i], opt, c04Host(), c03IsTool)
+		}
 	}
 	ctx := func() string {
 		return fmt.Sprintf("history=%s query=%q terms=%v options=%v\n db=%v", hist, q, terms, optBrief(opt), gen.BriefDB(cmds, 12))
 	}
-	labels := []string{"db:" + string(cls), "q:" + string(qc), "history:" + hist}
+	labels := []string{"db:" + string(cls), "q:" + string(qc), "history:" + hist, fmt.Sprintf("platform-filter:%v", filtered)}
 	switch {
 	case len(terms) > 10:
 		labels = append(labels, "long-query")
@@ -349,7 +413,7 @@ func TestC03_Scan(t *testing.T) {
 	for _, h := range c03Histories {
 		r.RequireShare("history:"+h, 0.05)
 	}
-	r.RequireShare("multi-field-hit", 0.20)
+	r.RequireShare("multi-field-hit", 0.15)
 	r.RequireShare("ubiquitous-term-25+", 0.02)
 	r.RequireShare("term-repeated-255+", 0.02)
 	rapid.Check(t, c03Property)
